@@ -3,10 +3,10 @@ import time
 
 from framework.checklib import CorrResult
 from harness import gen, histcorr, semoracle
-from translator import t6_converters
+from translator import t6_converters, t9_circuit_core
 
 ID = 'C14'
-TRANSLATORS = [t6_converters.translate]
+TRANSLATORS = [t6_converters.translate, t9_circuit_core.translate]
 PROPERTY_FILE = 'Properties/C14.v'
 THEOREMS = ['C14_rules_denotation', 'C14_rules_three_valued_refine', 'C14_rules_regenerated',
             'C14_rules_regenerated_eq', 'C14_rules_error_kind_corner', 'C14_interface_unchanged', 'C14_well_formed',
